@@ -444,11 +444,11 @@ func c07R3(c *Ctx) {
 	n := 0
 	eachInstr(f, func(in ssa.Instruction) {
 		ret, ok := in.(*ssa.Return)
-		if !ok || len(ret.Results) != 2 || !isNilConst(ret.Results[1]) {
+		if !ok || len(ret.Results) != 2 || !isNilConst(retVal(ret, 1)) || in.Block().Comment == "recover" {
 			return
 		}
 		n++
-		name := ret.Results[0]
+		name := retVal(ret, 0)
 		good := false
 		for _, fc := range factsAt(ret.Block()) {
 			if !fc.Pol {
@@ -510,7 +510,7 @@ func c07R4(c *Ctx) {
 		// every nil return is after MkdirAll or has IsDir()==true on the Stat's info
 		eachInstr(s.Fn, func(in ssa.Instruction) {
 			ret, ok := in.(*ssa.Return)
-			if !ok || len(ret.Results) != 1 || !isNilConst(ret.Results[0]) {
+			if !ok || len(ret.Results) != 1 || !isNilConst(retVal(ret, 0)) {
 				return
 			}
 			if domI(s.Call.(ssa.Instruction), ret) {
@@ -548,7 +548,7 @@ func c07R5(c *Ctx) {
 		}
 		eachInstr(f, func(in ssa.Instruction) {
 			ret, ok := in.(*ssa.Return)
-			if !ok || len(ret.Results) != 3 || !isNilConst(ret.Results[2]) {
+			if !ok || len(ret.Results) != 3 || !isNilConst(retVal(ret, 2)) {
 				return
 			}
 			c.check(sameValue(ret.Results[1], top), fname+"/return.localName", c.ipos(ret), "returned local name is the joined top-level name",
@@ -574,7 +574,7 @@ func c07R5(c *Ctx) {
 			// every return of caller with nil error returns a phi/leaf set of such results
 			eachInstr(caller, func(in ssa.Instruction) {
 				ret, ok := in.(*ssa.Return)
-				if !ok || len(ret.Results) != 3 || !isNilConst(ret.Results[2]) {
+				if !ok || len(ret.Results) != 3 || !isNilConst(retVal(ret, 2)) {
 					return
 				}
 				good := true
